@@ -245,14 +245,18 @@ def extract_iter(
         else:
             # Only inserting new items into the stack trace; since
             # next_inner is in both `items` and `to_unwrap`, remove it
-            # from the latter
+            # from the former. (It's not in `to_unwrap` if this is the
+            # innermost frame and there is no leaf, but then it's None.)
+            items = items[:-1]
             if to_unwrap:
-                to_unwrap.popleft()
-            else:
-                # This is the innermost frame and there is no leaf, so
-                # next_inner is None and there is nothing to remove;
-                # just insert the other items
-                items = items[:-1]
+                # next_inner keeps the unwrapping depth it already had,
+                # unless the frame doing the insertion is less deeply
+                # nested than that. This way next_inner remains able to
+                # prune its own callees, and can't be pruned by a frame that
+                # is logically inward of it, even if the frame that did the
+                # insertion was more deeply nested than next_inner is.
+                _, inner_item, inner_depth = to_unwrap.popleft()
+                to_unwrap.appendleft((None, inner_item, min(inner_depth, depth)))
         for item in reversed(items):
             to_unwrap.appendleft((better_origin(item, None), item, depth))
 
